@@ -509,3 +509,5 @@ def run(ctx):
     # R09.7 = R17.6: inner_products / integrate weight by |det J| like the compiled mass form
     import rules.C17 as c17
     ctx.shared(c17.r17_6, 'R17.6', 'R09.7')
+    # R09.9 = R17.8: integrate / inner_products evaluate f at the mapped points iff f_physical
+    ctx.shared(c17.r17_8, 'R17.8', 'R09.9')
